@@ -2,6 +2,7 @@ import SdJwt.Lemmas.Strip
 import SdJwt.Lemmas.Total
 import SdJwt.Lemmas.RestoreAll
 import SdJwt.Lemmas.Complete
+import SdJwt.Lemmas.SpecAgree
 /-!
 # C08 — conformant SD-JWTs from other issuers are processed as the specification says
 
@@ -93,3 +94,18 @@ theorem C08_accepted (env : Env) (T : MJ) (strs : List String) (inv : TreeInv T)
     ∃ c ps, restoreAll env T.payload strs = .ok (c, ps) ∧
       removeAll c = T.project (fun h => strs.any (fun s => env.hash s = h)) :=
   restoreAll_complete env T strs inv hdec hnd hacc
+
+/-- **C08: conformant SD-JWTs are processed as the specification says.**  `Ref.verify` is the
+draft's verification algorithm written from the text (no shared definition).  For every
+conformant tree — any issuer's: objects and arrays at any depth, decoys anywhere, `_sd` in any
+order, recursive disclosures — and ANY selection of its disclosures presented as strings in ANY
+order: the library's restorer accepts, the specification's algorithm accepts, and after the
+library's `remove_digests` they return the same claims. -/
+theorem C08_same_as_specification (env : Env) (T : MJ) (inv : TreeInv T)
+    (sub : List (String × SDisc × J))
+    (hsub : ∀ p ∈ sub, p.2.1 ∈ T.discs ∧ p.2.1.digest ∉ T.deepStale ∧
+      env.decodeDisc p.1 = some (Ref.discJ p.2.2 p.2.1) ∧ env.hash p.1 = p.2.1.digest)
+    (hnd : (sub.map (·.2.1.digest)).Nodup) :
+    ∃ c ps, restoreAll env T.payload (sub.map (·.1)) = .ok (c, ps) ∧
+      Ref.verify false T.payload (Ref.tblOf (sub.map (fun p => (p.2.1, p.2.2)))) = .ok (removeDigests c) :=
+  restore_agrees_with_spec env T inv sub hsub hnd
